@@ -46,6 +46,7 @@ def check(ctx, report):
     report.rule('C05.R10', 'timestamps and flag sets: the value read composes to the bytes it was read from, over the tabulated widths')
     flags_and_timestamps(ctx, report, R4='C05.R10', R5='C05.R10')
     text_dates(ctx, report)
+    json_member_round_trip(ctx, report)
     from .c18 import name_value_composers
     name_value_composers(ctx, report, rule='C05.R5')
     from .c08 import txt_chunks
@@ -750,3 +751,82 @@ def text_dates(ctx, report, RULE='C05.R11'):
     for (cons, kind), v in sorted(problems.items()):
         report.add(RULE, '%s@date[%s]' % (cons, kind), v)
     report.floor(RULE, 20, 'date texts x printing functions')
+
+
+# ---- R12: members of JSON documents that are stored as another type -----------------------------------------------------
+
+def json_member_round_trip(ctx, report, RULE='C05.R12'):
+    """a member of a JSON header value is turned into an object by ``<component>.convert`` and written back by
+    ``_get_value_as_simple_type``; for the component kinds that change the type on the way (seconds -> timedelta), both are
+    evaluated from their own statements on numbers a JSON document can carry: what is written must read as the value it was
+    written from"""
+    import datetime as _dt
+    from ..miniexec import Evaluator, Native, Raised, Unsupported, class_call_hook
+    model = ctx.model
+    report.rule(RULE, 'JSON members stored as another type (seconds as timedelta): the number written back reads as the stored value')
+    kinds = []
+    for c in model.all_classes:
+        if not isinstance(c.name, str) or not c.name.startswith('FieldValueComponent'):
+            continue
+        conv, simple = c.methods.get('convert'), c.resolve('_get_value_as_simple_type')
+        if conv is None or simple is None:
+            continue
+        kinds.append((c, conv, simple))
+    if not kinds:
+        report.error(RULE + ': no component class defines its own convert() any more')
+        return
+
+    class Made(Native):
+        def __init__(self, value):
+            self.value = value
+    MARK = object()
+    for c, conv, simple in kinds:
+        report.touch(conv)
+        report.touch(simple)
+
+        def hook(n, ev):
+            d = ast.unparse(n.func)
+            if d == 'cls':
+                v = ev.ev(n.args[0])
+                return Made(v)
+            if d == 'isinstance' and len(n.args) == 2:
+                t = ev.ev(n.args[1])
+                if t is MARK:
+                    return isinstance(ev.ev(n.args[0]), Made)
+                return NotImplemented
+            if d == 'datetime.timedelta':
+                return _dt.timedelta(*[ev.ev(a) for a in n.args], **{k.arg: ev.ev(k.value) for k in n.keywords})
+            return NotImplemented
+
+        def names(name):
+            if name == 'cls':
+                return MARK
+            if name == 'datetime.timedelta':
+                return _dt.timedelta
+            raise Unsupported('free name ' + name)
+        h = class_call_hook(c, hook, model)
+        nh = h.name_hook_for(c.module, names)
+        problems = None
+        try:
+            for v in (0, 1, 59, 86400, 31536000, 1.5, 0.25, 2.999, 1e3, True):
+                report.count(RULE)
+                try:
+                    o1 = Evaluator({'cls': MARK, 'value': v}, h, nh).function(conv.node)
+                    s1 = Evaluator({'self': o1}, h, nh).function(simple.node)
+                    o2 = Evaluator({'cls': MARK, 'value': s1}, h, nh).function(conv.node)
+                    s2 = Evaluator({'self': o2}, h, nh).function(simple.node)
+                except Raised:
+                    continue            # refused: nothing is stored
+                if not (isinstance(o1, Made) and isinstance(o2, Made)):
+                    raise Unsupported('convert gives %r' % (o1,))
+                if o1.value != o2.value or s1 != s2:
+                    problems = 'the JSON number %r is stored as %r and written as %r, which is stored as %r' % (v, o1.value, s1, o2.value)
+                    break
+        except Unsupported as e:
+            report.add(RULE, conv.construct + '@tabulation', 'convert / _get_value_as_simple_type left the subset the tabulation understands: %s' % e)
+            continue
+        if problems:
+            report.add(RULE, conv.construct + '@number', problems)
+        else:
+            report.sample({'rule': RULE, 'class': c.name, 'verdict': 'written number reads as the stored value for 10 sample numbers'})
+    report.floor(RULE, 10, 'numbers x component kinds')
